@@ -180,6 +180,7 @@ struct FamReport {
     evaluations: usize,
     nontrivial: usize,
     positions: usize,
+    total_positions: usize,
 }
 
 impl FamReport {
@@ -384,6 +385,9 @@ fn run(args: &[String]) -> Result<()> {
     let threads = opt_usize(args, "--threads", 12).max(1);
     let untampered = args.iter().any(|a| a == "--untampered");
     let stride = opt_usize(args, "--stride", 1).max(1);
+    // evaluations per (family, form) spent on the bulk components (query-round leaves, paths, coset values);
+    // 0 = every position
+    let bulk_budget = opt_usize(args, "--bulk-budget", 0);
     let t0 = std::time::Instant::now();
     let fams = families(nf)?;
     eprintln!("[c03] {} families built in {:?}", fams.len(), t0.elapsed());
@@ -403,6 +407,23 @@ fn run(args: &[String]) -> Result<()> {
             if stride > 1 {
                 leaves = leaves.into_iter().step_by(stride).collect();
             }
+            let total_positions = leaves.len();
+            if bulk_budget > 0 {
+                let hiding = fam.data.common.fri_params.hiding;
+                let is_bulk = |p: &Path| matches!(model_component(p, hiding, &base).as_str(), "leaf" | "salt" | "path" | "evals" | "lpath");
+                let nbulk = leaves.iter().filter(|p| is_bulk(p)).count();
+                let st = (nbulk * nvalues).div_ceil(bulk_budget).max(1);
+                let off = (seed() as usize + fi) % st;
+                let mut k = 0usize;
+                leaves.retain(|p| {
+                    if !is_bulk(p) {
+                        return true;
+                    }
+                    k += 1;
+                    (k + off) % st == 0
+                });
+            }
+            total.total_positions += total_positions;
             if untampered {
                 leaves.truncate(40);
                 arrays.clear();
@@ -438,7 +459,7 @@ fn run(args: &[String]) -> Result<()> {
         emit(&json!({"kind": "family", "fam": fam.name, "degree_bits": fam.data.common.degree_bits(), "binding_bits": binding_bits(&fam.data.common.config),
             "zk": fam.data.common.fri_params.hiding, "lookups": fam.data.common.num_lookup_polys > 0,
             "layers": fam.data.common.fri_params.reduction_arity_bits.len(),
-            "positions": total.positions, "evaluations": total.evaluations, "nontrivial": total.nontrivial,
+            "positions": total.positions, "leaf_positions_total": total.total_positions, "evaluations": total.evaluations, "nontrivial": total.nontrivial,
             "stats": stats, "accepted": total.accepted, "elapsed_ms": tf.elapsed().as_millis() as u64}));
     }
     if untampered {
